@@ -4,6 +4,8 @@ package node
 // mode, every Go map iteration order inside message handling) give the same public state, operations and board output.
 
 import (
+	"github.com/lidofinance/dc4bc/client/types"
+	"github.com/lidofinance/dc4bc/fsm/fsm"
 	"github.com/lidofinance/dc4bc/fsm/state_machines"
 	"github.com/lidofinance/dc4bc/internal/vf"
 )
@@ -49,5 +51,97 @@ func VF_C08_Determinism() {
 	vf.Assert(label+":operations", vf.Eq(a.Ops, b.Ops))
 	vf.Assert(label+":signatures", vf.BytesEq(a.Sigs, b.Sigs))
 	vf.Assert(label+":board", sa == sb)
+	vf.Assert("witness", false)
+}
+
+// VF_C08_Interleave: params abs, event. Node A has followed a board on which ANOTHER round left something behind in every
+// store the rounds share (a pending operation and an answered one, both with arbitrary payloads, made by the real
+// NewOperation/PutOperation/DeleteOperation; its own dump and signatures); node B has seen only this round. The same
+// message for this round must give the same verdict, the same public round state, the same operations of this round,
+// the same signatures and the same board output on both, and must leave what the other round left behind untouched.
+func VF_C08_Interleave() {
+	abs := vf.Param("abs")
+	ev := vf.Param("event")
+	n := state_machines.VFAbsN(abs)
+	vf.Injective("md5")
+	vf.Injective("hex")
+	vf.Injective("b64")
+	dump, _ := state_machines.VFDump(abs, "round")
+	otherDump, _ := state_machines.VFDump(abs, "other")
+	msg := vfGenuineMessage(ev, 1)
+	// what the message makes this round's node put into the shared pool (learned from a dry run on a third node): the other
+	// round's leftovers are either arbitrary opaque bytes or byte-identical to one of these (an invitation to the same
+	// participants, the same batch of files, ...). The second form is what a native replay can reproduce.
+	var likely [][]byte
+	{
+		path := vfStatePath("dry")
+		vfCleanup(path)
+		if e, err := vfOpenNode(path, 0, &vfBoard{}); err == nil {
+			_ = e.fsm.SaveFSM("round", dump)
+			_ = e.node.ProcessMessage(msg)
+			ops, _ := e.ops.GetOperations()
+			for _, o := range ops {
+				likely = append(likely, o.Payload)
+			}
+		}
+		vfCleanup(path)
+	}
+	leftover := func(which string) []byte {
+		if k := vf.Choose("other."+which+".payload-kind", len(likely)+1); k > 0 {
+			return likely[k-1]
+		}
+		return vf.OpaqueBytes("other." + which + ".payload")
+	}
+	run := func(tag string, interleaved bool) (vfPublic, error, int, bool) {
+		path := vfStatePath(tag)
+		vfCleanup(path)
+		defer vfCleanup(path)
+		board := &vfBoard{}
+		e, err := vfOpenNode(path, 0, board)
+		if err != nil {
+			vf.Unreachable("open-node")
+			return vfPublic{}, nil, 0, false
+		}
+		_ = e.fsm.SaveFSM("round", dump)
+		var keep vfSnap
+		if interleaved {
+			_ = e.fsm.SaveFSM("other", otherDump)
+			pend := types.NewOperation("other", leftover("pending"), fsm.State(vf.Str("other.pending.type")))
+			done := types.NewOperation("other", leftover("answered"), fsm.State(vf.Str("other.answered.type")))
+			if e.ops.PutOperation(pend) != nil || e.ops.PutOperation(done) != nil || e.ops.DeleteOperation(done) != nil {
+				vf.Stop() // the two leftovers coincide: not a second operation
+			}
+			keep = vfTake(e, []string{"other"})
+		}
+		perr := e.node.ProcessMessage(msg)
+		untouched := true
+		if interleaved {
+			after := vfTake(e, []string{"other"})
+			untouched = vf.And(vf.BytesEq(keep.rounds["other"], after.rounds["other"]), vf.BytesEq(keep.sigs["other"], after.sigs["other"]))
+			ops, _ := e.ops.GetOperations()
+			cnt := 0
+			for _, o := range ops {
+				if o.DKGIdentifier == "other" {
+					cnt++
+				}
+			}
+			untouched = untouched && cnt == 1
+		}
+		p := vfPublicState(e, n)
+		for id, o := range p.Ops {
+			if o.Round != "round" {
+				delete(p.Ops, id)
+			}
+		}
+		return p, perr, len(board.sent), untouched
+	}
+	a, ea, sa, untouched := run("a", true)
+	b, eb, sb, _ := run("b", false)
+	vf.Assert("interleaved-round-changes-nothing:verdict", (ea == nil) == (eb == nil))
+	vf.Assert("interleaved-round-changes-nothing:round", vf.And(a.HasRnd == b.HasRnd, vf.Eq(a.Round, b.Round)))
+	vf.Assert("interleaved-round-changes-nothing:operations", vf.Eq(a.Ops, b.Ops))
+	vf.Assert("interleaved-round-changes-nothing:signatures", vf.BytesEq(a.Sigs, b.Sigs))
+	vf.Assert("interleaved-round-changes-nothing:board", sa == sb)
+	vf.Assert("interleaved-round-changes-nothing:other-round-untouched", untouched)
 	vf.Assert("witness", false)
 }
